@@ -8,7 +8,7 @@ R-C14-3  every RNG is finalize([rekey(]build_rng(T)[, "witness", bytes)], extern
 R-C14-4  the RNG is rebuilt after the absorptions of every step and before that step's challenges (and stored in the wrapper)
 """
 from bpsa.facts import callee_decl, callee_name
-from bpsa.terms import walk, short, TERM_IDX
+from bpsa.terms import ev_site, walk, short, TERM_IDX
 from bpsa.trace import strip
 from . import wire, ilen
 
@@ -93,7 +93,7 @@ def positional_fill(ctx, rep, d, n):
     buf_len = None
     nwrites = 0
     for ev in [x for x in walk(d) if x.tag == 'ev' and x[1] == 'call' and x[2].split('::')[-1] in ('copy_from_slice', 'clone_from_slice') and x[4]]:
-        bkey, ebb = ev[4][-1]
+        bkey, ebb = ev_site(ev)
         if (bkey, ebb) in seen:
             continue
         seen.add((bkey, ebb))
@@ -239,7 +239,7 @@ def run(ctx):
         # fills that happen in a loop pairing the source with something else (slots carved out of a pre-sized buffer): the pairing must
         # be exhaustive, i.e. both sides have the same number of items (symbolic length arithmetic), or elements are left out
         for ev in [x for x in walk(d) if x.tag == 'ev' and x[4]]:
-            bkey, ebb = ev[4][-1]
+            bkey, ebb = ev_site(ev)
             eb = ctx.facts.by_key.get(bkey)
             if eb is None:
                 continue
